@@ -469,6 +469,8 @@ class Parser:
             # Expression init (could also be for-in/for-of with identifier or member expression)
             # Parse with exclude_in=True so 'in' isn't treated as binary operator
             expr = self._parse_expression(exclude_in=True)
+            if self._check(TokenType.IN, TokenType.OF):
+                self._require_reference(expr, "Invalid for-in/for-of loop target")
             if self._match(TokenType.IN):
                 # for (x in obj) or for (a.x in obj)
                 right = self._parse_expression()
